@@ -139,15 +139,26 @@ class World:
             self.unmemo.setdefault(id(oo), mm)
             self.keep.append(mm)
             kids_m = M.children(mm)
-            if not kids_m:
-                continue
             t = mm[0]
-            if t in M.NARY:
-                kids_o = list(oo._inners)
-            elif t in M.BINARY:
-                kids_o = [oo._left, oo._right]
-            else:
-                kids_o = [oo._inner]
+            kids_o = None
+            if type(oo).__name__ == t:
+                if t in M.NARY:
+                    kids_o = list(getattr(oo, "_inners", ()))
+                elif t in M.BINARY:
+                    kids_o = [getattr(oo, "_left", None), getattr(oo, "_right", None)]
+                elif kids_m:
+                    kids_o = [getattr(oo, "_inner", None)]
+                else:
+                    kids_o = []
+            if kids_o is None or len(kids_o) != len(kids_m) or any(k is None for k in kids_o):
+                # an object built earlier from this model node no longer has the constructor / arity it was built with:
+                # something changed it in place.  Observable through the public API: it no longer equals a fresh copy.
+                f = fresh(mm)
+                if not (oo == f) or repr(oo) != repr(f):
+                    raise Mismatch("snapshot", f"object-changed-in-place:{t}",
+                                   f"an expression object built as {M.text(mm)[:250]} now prints {repr(oo)[:250]} and "
+                                   f"{'equals' if oo == f else 'no longer equals'} a freshly built copy (it was changed in place by an earlier operation)")
+                raise HarnessError(f"model/object structure mismatch without an observable difference at {M.text(mm)[:200]}")
             stack.extend(zip(kids_m, kids_o))
 
     # -- operations -----------------------------------------------------------------------------
